@@ -177,4 +177,52 @@ theorem C11_generate_order_independent {items items' : List Item} (hp : items.Pe
 /-- non-vacuity -/
 example : TypeIndex.new [.enum ⟨"b", []⟩, .enum ⟨"a", []⟩] = TypeIndex.new [.enum ⟨"a", []⟩, .enum ⟨"b", []⟩] := by decide
 
+/-! ### layout: white space and comments between tokens -/
+
+/-- **C11 (the one place where layout is consumed).**  The implicit skip that pest inserts between the parts of a sequence and
+    between repetitions consumes exactly a layout — any run of blanks, tabs and line ends, then any number of block or line
+    comments each followed by such a run — whatever follows it. -/
+theorem C11_skip_absorbs_layout (l : Parse.Layout) (p : Nat) (r : List Char) (hl : l.ok = true) (hr : Parse.NoLayoutStart r) :
+    ∃ f ts, Peg.skip Grammar.xdr f ⟨p, l.text ++ r⟩ = .ok ⟨p + l.text.length, r⟩ ts :=
+  Parse.skOk_layout l p r hl hr
+
+/-- **C11 (layout).**  Two well-formed texts of the same declarations — the same tokens in the same order, with any layouts
+    at the gaps (`s.norm = s'.norm`) — give the same `Ast::new` result, hence (the generator is a function of the `Ast`) the
+    same generated module.  Proved through the parser model: every well-formed text is accepted with the token tree of its
+    declarations (`C12_parse_complete`, rule by rule over the grammar regenerated from `src/xdr.pest`, using the budget-free
+    big-step rules of `Fx.Lemmas.PegRel`), and `walk` reads only rule names, shapes and the leaf texts (`Parse.walk_sim`). -/
+theorem C11_layout_insensitive (s s' : Parse.Spec) (h : s.ok = true) (h' : s'.ok = true) (hn : s.norm = s'.norm) :
+    Ast.new (String.ofList s.text) = .outOfFuel ∨ Ast.new (String.ofList s'.text) = .outOfFuel ∨
+    Ast.new (String.ofList s.text) = Ast.new (String.ofList s'.text) := by
+  rcases C12.C12_ast_from_declarations s h with h1 | h1
+  · exact .inl h1
+  · rcases C12.C12_ast_from_declarations s' h' with h2 | h2
+    · exact .inr (.inl h2)
+    · exact .inr (.inr (by rw [h1, h2, hn]))
+
+section examples
+open Parse
+
+private def sp : Layout := ⟨[' '], []⟩
+
+/-- `const A = 1;\nstruct s { unsigned   int x<3>; /* c */ };` -/
+def exA : Spec := ⟨nl, [
+  (.const ⟨sp, ['A'], sp, sp, ['1'], nl⟩, ⟨['\n'], []⟩),
+  (.struct ⟨sp, ['s'], sp, sp,
+     [(⟨.prim (.uint [' ', ' ', ' ']) [' '], nl, none, ['x'], nl, some (.var nl (some (.num ['3'], nl)), nl)⟩,
+       ⟨[' '], [(.long [' ', 'c', ' '], [' '])]⟩)], nl⟩, nl)]⟩
+
+/-- the same declarations, laid out differently: comments before, between and inside, a line comment, tabs -/
+def exB : Spec := ⟨⟨[], [(.short ['h', 'i'], ['\n'])]⟩, [
+  (.const ⟨⟨['\t'], []⟩, ['A'], nl, ⟨[], [(.long ['*'], [])]⟩, ['1'], sp⟩, nl),
+  (.struct ⟨⟨['\n', ' '], []⟩, ['s'], nl, ⟨['\r', '\n'], []⟩,
+     [(⟨.prim (.uint ['\n']) ['\t'], ⟨[], [(.long [], [])]⟩, none, ['x'], sp, some (.var sp (some (.num ['3'], sp)), sp)⟩, nl)], sp⟩,
+   ⟨['\n'], []⟩)]⟩
+
+example : exA.ok = true ∧ exB.ok = true := by decide
+example : String.ofList exA.text = "const A = 1;\nstruct s { unsigned   int x<3>; /* c */ };" := by decide
+example : String.ofList exB.text = "//hi\nconst\tA=/***/1 ;struct\n s{\r\nunsigned\nint\t/**/x < 3 > ;} ;\n" := by decide
+example : exA.norm = exB.norm := rfl
+end examples
+
 end Fx.C11
